@@ -308,6 +308,12 @@ def run(tier, seed, replay=None):
     # ---- (5) the optional syslog output (--enable-output-syslog): glibc's syslog(3) keeps per-process state (ident POINTER, options,
     # facility). The recorder stands in for openlog/syslog/closelog and keeps that state; when the real exec is entered and when the
     # call returns, the caller's syslog state must be what it was before (closed, no ident pointer into a dead frame of the wrapper).
+    gsl = c.run_tlc("SyslogOutput.tla", "SyslogOutputMC.cfg")
+    rep.tlc(gsl)
+    sl_allowed = {(x["pass"], x["open"], x["msgs"]) for x in (json.loads(y) for y in gsl.printed)}      # what SyslogOutput.tla lets the harness see at the real exec
+    if len(sl_allowed) != 2:
+        raise c.MachineryError("SyslogOutput.tla: unexpected observation set %r" % (sl_allowed,))
+    rep.cov["vacuity_guards"].update({d: c.run_tlc("SyslogOutput.tla", "SyslogOutputDefect_%s.cfg" % d, expect_violation=True).violated for d in ("NoClose", "TwoMessages", "LogWhenFiltered")})
     bs = c.build("asan", tag="C02sl", extra_conf=["--enable-output-syslog"])
     long_id = b"I" * 300
     slcases = [
@@ -355,6 +361,9 @@ def run(tier, seed, replay=None):
             for e in o["rets"]:
                 sl = e.get("syslog") or {}
                 want = 0 if name == "flt" else 1
+                for when in ("open_at_exec", "open_after"):
+                    if (bool(want), bool(sl.get(when)), sl.get("msgs")) not in sl_allowed:
+                        bad.append("%s: observation (pass=%s, %s=%s, msgs=%s) is not a state of SyslogOutput.tla at the real exec" % (e["label"], bool(want), when, sl.get(when), sl.get("msgs")))
                 if e["n_real"] != 1:
                     bad.append("%s: real exec entered %d times" % (e["label"], e["n_real"]))
                 if sl.get("open_at_exec") != 0 or sl.get("open_after") != 0:
